@@ -525,6 +525,102 @@ def _all_callers_nonempty(prog, f, c):
     return True
 
 
+def _def_bound(f, mf, name):
+    """upper bound of local `name` from all its definitions: constants, or (casts of) another variable that is bounded by a
+    dominating comparison with a constant at the point of the assignment"""
+    best = 0
+    found = False
+    for b, i, el in f.elements():
+        rhs = None
+        if el["k"] == "decl":
+            for v in el["vars"]:
+                if v["n"] == name and v.get("init") is not None:
+                    rhs = v["init"]
+        elif el["k"] == "asg" and is_var(strip(el["e"]["l"]), name) and el["e"]["op"] == "=":
+            rhs = el["e"].get("r")
+        elif el["k"] == "asg" and is_var(strip(el["e"]["l"]), name):
+            return None
+        if rhs is None:
+            continue
+        found = True
+        e = strip(rhs)
+        while e is not None and e.get("k") == "cast":
+            e = strip(e["e"])
+        cv = const_val(e)
+        if cv is not None:
+            best = max(best, cv)
+            continue
+        if e is not None and e.get("k") == "var":
+            bnd = None
+            for c3, p3 in mf.cond_facts_at(b, i):
+                op, l3, r3 = norm_cmp(c3, p3)
+                if r3 is None or not is_var(strip(l3), e["n"]) or const_val(r3) is None:
+                    continue
+                if op == "<=":
+                    bnd = const_val(r3)
+                elif op == "<":
+                    bnd = const_val(r3) - 1
+            if bnd is None:
+                return None
+            best = max(best, bnd)
+            continue
+        return None
+    return best if found else None
+
+
+def r_num(prog, R):
+    r = R.rule("R-C15-NUM", "numbers in configuration text are converted only from validated decimal strings and scaled only within range", floor=2,
+               analysis="A-DOM validation fact before conversion + interval bound before scaling")
+    n = 0
+    for f in sorted(prog.funcs.values(), key=lambda x: x.key):
+        if f.file not in ("src/lib/ares_sysconfig_files.c", "src/lib/ares_sysconfig.c"):
+            continue
+        mf = None
+        conv = {}
+        for b, i, c in f.calls():
+            if c.get("callee") not in ("strtoul", "strtol", "atoi", "atol", "strtoull"):
+                continue
+            n += 1
+            if mf is None:
+                mf = MustFacts(f)
+            src = render(strip(call_arg(c, 0)))
+            k = "fn=%s %s(%s) validated" % (f.name, c["callee"], src)
+            ok_ = False
+            for c3, p3 in mf.cond_facts_at(b, i):
+                t = render(c3)
+                if p3 and "ares_str_isnum" in t:
+                    ok_ = True
+            if not ok_ and mf.passed_call(b, i, "ares_str_isnum"):
+                # `if (!isnum(val)) goto done;` leaves a negative fact on the fall-through path
+                ok_ = any((not p3) is False and False for _ in ()) or any("ares_str_isnum" in render(c3) and p3 for c3, p3 in mf.cond_facts_at(b, i))
+            if ok_:
+                r.ok(k, f.loc(c["ln"]))
+            else:
+                r.viol(k, f.name, f.loc(c["ln"]), "%s converts '%s' with %s without having checked that it is a plain decimal number: a sign, garbage or an overflowing value silently becomes some other number (e.g. 'ndots:-1' = 4294967295)" % (f.name, src, c["callee"]))
+        # scaling of a converted value
+        for b, i, el in f.elements():
+            if el["k"] != "asg":
+                continue
+            for nd in walk(el["e"].get("r")):
+                if nd.get("k") == "bin" and nd["op"] == "*" and const_val(nd["r"]) is not None and strip(nd["l"]).get("k") == "var" and (nd.get("ty") or "").startswith("unsigned"):
+                    if not any(c.get("callee") in ("strtoul", "strtol", "atoi", "atol") for _, _, c in f.calls()):
+                        continue
+                    n += 1
+                    if mf is None:
+                        mf = MustFacts(f)
+                    lo, hi = interval(strip(nd["l"]), mf.cond_facts_at(b, i), prog, f, point=(b.id, i))
+                    hi2 = _def_bound(f, mf, strip(nd["l"])["n"])
+                    if hi2 is not None and (hi is None or hi2 < hi):
+                        hi = hi2
+                    k = "fn=%s %s in range" % (f.name, render(nd))
+                    lim = (1 << (type_bits((nd.get("ty") or "").replace("const ", "")) or 32)) - 1
+                    if hi is not None and hi * const_val(nd["r"]) <= lim:
+                        r.ok(k, f.loc(el))
+                    else:
+                        r.viol(k, f.name, f.loc(el), "%s can exceed its %d-bit type (upper bound of '%s' is %s): a large configured value wraps to a small one" % (render(nd), type_bits((nd.get("ty") or "").replace("const ", "")) or 32, render(nd["l"]), hi))
+    r.require(n >= 2, "no numeric conversions found in the configuration parsers (anchor drift)")
+
+
 def run(prog, R, tier):
     R.assume("callees are given valid (non-NULL) pointers by the configuration parsers (defensive NULL-argument returns are not part of the return sets)")
     ownrules.own_rule(prog, R, "R-C15-OWN", FILES, floor=30)
@@ -535,3 +631,4 @@ def run(prog, R, tier):
     r_keep(prog, R)
     r_split(prog, R)
     r_empty(prog, R)
+    r_num(prog, R)
